@@ -63,7 +63,7 @@ def gen_case0(rng, car):
     if r < 0.95:
         op = rng.choice(["OAdd", "ORAdd", "OSub", "ORSub", "OMul", "ORMul", "ONeg"])
         if op == "ONeg":
-            return Op(op, [A]), "ttm-scalar", None
+            return Op(op, [A]), "ttm-neg-order-%s" % ("even" if d % 2 == 0 else "odd"), None
         if not cplx and rng.random() < 0.3:        # a scalar with ~30 significant bits: exact in float64, not representable in float32
             c = expr.wide_dyadic(rng)
             return Op(op, [A, Scal(rng.choice(["float", "npf64", "t0"]), c, coq_value=Fraction(c))]), "ttm-scalar-wide", coqrun.QC
